@@ -39,9 +39,21 @@ def ordered(res):
     return out
 
 
-def sig_event(ev):
+def sig_event(ev, sform="pinned"):
     """trace tokens (thread, event, args...) -> acceptor event tokens, or None when invisible to the model.
-    Operations the model does not know on the protocol objects map to tokens the acceptor rejects."""
+    Operations the model does not know on the protocol objects map to tokens the acceptor rejects.
+    sform = "stopwdog": the tree carries the repair of F07-STALEID (watchdog joinable, thd_mutex around each slot, dsh()
+    cancels and joins it before the signals thread): its events belong to the model."""
+    if sform == "stopwdog" and len(ev) >= 2:
+        if ev[0] == "D" and len(ev) >= 3 and ev[2] == "G" and ev[1] in ("create", "cancel", "join"):
+            return ["D", ev[1] + "G"]
+        if ev[0] == "G":
+            if len(ev) >= 3 and ev[1] in ("lock", "unlock") and ev[2] == "thd":
+                return ["G", ev[1] + "T"]
+            if ev[1] == "sleep":
+                return ["G", "wake"]
+            if ev[1] in ("cancelled", "end", "time"):
+                return None
     if len(ev) < 2:
         return None
     ev = list(ev) + ["", "", ""]
@@ -110,7 +122,7 @@ def sig_event(ev):
 def keep_names(names):
     if names in (None, "-", ""):
         return "-"
-    keep = [x for x in names.split(",") if x in ("D", "Z") or x.startswith("W")]
+    keep = [x for x in names.split(",") if x in ("D", "Z", "G") or x.startswith("W")]
     return ",".join(keep) if keep else "-"
 
 
@@ -128,16 +140,16 @@ def ztext(ev):
     return None
 
 
-def project_sig(res, variant, wform="blind"):
+def project_sig(res, variant, wform="blind", sform="pinned"):
     """acceptor input lines for one run; `variant` = wait construct (if|while), `wform` = form of the worker's first
     state write (blind|guarded), both probed by behaviour"""
     m = res["M"] or {}
     case = res["case"]
     opts = case.get("opts") or {}
     names = [h["name"] for h in case["hosts"]]
-    L = ["init %s %s %s %d %d %s" % (variant, res["header"].get("fanout", m.get("fanout", "0")),
-                                     res["header"].get("n", m.get("n", "0")), 1 if int(opts.get("batch", 0)) else 0,
-                                     case.get("clock0", 1000000), wform)]
+    L = ["init %s %s %s %d %d %s %s" % (variant, res["header"].get("fanout", m.get("fanout", "0")),
+                                        res["header"].get("n", m.get("n", "0")), 1 if int(opts.get("batch", 0)) else 0,
+                                        case.get("clock0", 1000000), wform, sform)]
     stage = {}            # worker -> conn (connected) updT (in _update_connect_state) updL (updated) body res
     polled = {}
     zlist, zcanc, fwds = [], None, []
@@ -156,7 +168,7 @@ def project_sig(res, variant, wform="blind"):
                 mm = CANC_RE.search(tx)
                 if mm:
                     zcanc = int(mm.group(1))
-        fe = sig_event(ev)
+        fe = sig_event(ev, sform)
         if fe is None and th.startswith("W") and len(ev) > 1 and ev[1] == "time" and stage.get(th) == "updT":
             fe = [th, "time"]       # the time() call inside _update_connect_state (precedes the state update)
         if fe is None:
@@ -231,7 +243,7 @@ def late_interrupt_crash(res):
     m = res.get("M") or {}
     if m.get("status") == "segv":
         fault = [ev for _, ev in res["inline"] if len(ev) >= 2 and ev[1] == "fault"]
-        cancelled = any(ev[:3] == ["D", "cancel", "Z"] for _, ev in res["steps"])
+        cancelled = any(ev[:3] == ["D", "cancel", "Z"] for _, ev in list(res["steps"]) + list(res["inline"]))
         return bool(fault) and fault[-1][0] == "Z" and cancelled
     txt = res.get("crash") or ""
     if "null pointer of type 'struct thd_t'" in txt or "heap-use-after-free" in txt:
@@ -277,6 +289,23 @@ LOST_CANCEL_CASE = {"fanout": 1, "hosts": [{"name": "h0", "out": [[0, b"o0-0\n".
                     "budget": 1500, "yield": "fan,thd,sig", "strategy": "list",
                     "opts": {"labels": 1, "ct": 0, "ut": 0, "tstates": 1, "batch": 0},
                     "choices": "D D D D D D i2 Z Z Z i20 Z Z Z W0".split()}
+
+
+def detect_shutdown_form(exe, scratch):
+    """Does dsh() stop the watchdog (cancel + join) before it returns (the repair of F07-STALEID, which also makes the
+    watchdog take thd_mutex around each slot) or does the watchdog run on (the pinned source)?  Decided by behaviour: is
+    the watchdog thread still alive when dsh() returns, and did dsh() join it?"""
+    case = dict(LOST_CANCEL_CASE, choices=[], strategy="first")
+    res = sched.run_case(exe, case, scratch)
+    if res["crash"] is not None or res["M"] is None:
+        return None, res
+    alive = [x for x in res["M"].get("alive", "").split(",") if x]
+    joined = any(ev[:3] == ["D", "join", "G"] for _, ev in res["steps"])
+    if "G" in alive and not joined:
+        return "pinned", res
+    if "G" not in alive and joined:
+        return "stopwdog", res
+    return None, res
 
 
 def detect_worker_form(exe, scratch):
